@@ -1131,6 +1131,25 @@ func ruleC14(w *World) {
 		ctr := "*LittleEndian.Uint64(" + want[2] + ")"
 		sc := callsTo(rf, "SetCounter")
 		okk = len(sc) == 1 && render(sc[0].Common().Args[1]) == "("+ctr+" / 64)"
+		if okk {
+			// the quotient is formed in the counter's own 64-bit type and narrowed afterwards: narrowing
+			// first drops the high bits of the byte counter (streams longer than 4 GiB)
+			v := sc[0].Common().Args[1]
+			for {
+				if cv, ok := v.(*ssa.Convert); ok {
+					v = cv.X
+					continue
+				}
+				break
+			}
+			wide := false
+			if bo, ok := v.(*ssa.BinOp); ok && bo.Op == token.QUO {
+				if bt, ok := bo.X.Type().Underlying().(*types.Basic); ok && (bt.Kind() == types.Uint64 || bt.Kind() == types.Int64) {
+					wide = true
+				}
+			}
+			w.check(wide, "C14.R4", fnKey(rf)+"/block-count-width", rf.Pos(), "bytes/64 is computed on the 64-bit counter and narrowed to the 32-bit block counter afterwards", "the byte counter is narrowed before the division by the block size: stored states at or beyond 2^32 bytes restore to the wrong block")
+		}
 		w.check(okk, "C14.R4", fnKey(rf)+"/block-count", rf.Pos(), "block counter = bytes / 64", "SetCounter argument is not bytesCounter/64: "+func() string {
 			if len(sc) == 1 {
 				return render(sc[0].Common().Args[1])
